@@ -33,7 +33,7 @@ let run () =
           | None -> ()
           | Some (args, r) ->
             let a = List.map n_of_hex args in
-            let m = if fn = "bucket" || fn = "bucket_moved" || fn = "bucket_assigned" || fn = "bucket_static" then buckets a else if fn = "const" then consts a else Arith_tbl.call fn a in
+            let m = if fn = "bucket_max" then (match a with [lt; pol; mx; _] -> buckets [lt; pol; mx; mx] | _ -> None) else if fn = "bucket" || fn = "bucket_moved" || fn = "bucket_assigned" || fn = "bucket_static" then buckets a else if fn = "const" then consts a else Arith_tbl.call fn a in
             incr total;
             (match m with
              | None -> incr unknown; Printf.printf "UNKNOWN %s\n" line
